@@ -17,6 +17,14 @@ class IsNonRandExprVisitor(ModelVisitor):
         e.accept(self)
         return self._is_nonrand
 
+    def visit_expr_array_sum(self, e):
+        # The sum of a list is only constant if none of its elements is random
+        for f in e.arr.field_l:
+            if f.is_used_rand:
+                self._is_nonrand = False
+        if e.arr.size.is_used_rand:
+            self._is_nonrand = False
+
     def visit_expr_fieldref(self, e):
         # An expression is non-random only if every field it references is
         if e.fm.is_used_rand:
